@@ -258,7 +258,7 @@ type originVerdict struct{ kind, reason string }
 var errorOriginTable = map[string]map[string]originVerdict{
 	"keeper.Hooks.BeforeValidatorSlashed": {
 		"keeper.Keeper.SlashValidator | NEW(fmt.Errorf#1)":                                       {"precondition", "fraction range error: staking computes the fraction as min(burn/tokens, 1) with tokens > 0 and calls the hook only when it is positive"},
-		"keeper.Keeper.GetAllianceValidator | NEW(fmt.Errorf#1)":                                 {"precondition", "validator-not-found: the slashed validator exists in staking (Slash loaded it); a redelegation destination exists while it has delegations (staking removes a validator only with zero delegator shares, AfterValidatorRemoved deletes its info)"},
+		"keeper.Keeper.GetAllianceValidator | NEW(fmt.Errorf#1)":                                 {"precondition", "validator-not-found: the slashed validator exists in staking (Slash loaded it); a redelegation destination normally exists while the module holds stake on it (staking removes a validator only with zero delegator shares). EXCEPTION reported separately as finding F14 (rule C03.valdelete, also listed under C08): a destination on which the module never staked can be removed while alliance positions still point at it"},
 		"keeper.Keeper.SlashValidator | SENTINEL(types.ErrUnknownAsset)":                         {"precondition", "a denom with validator shares has an asset: DeleteAsset requires zero tokens and ResetAssetAndValidators strips the denom from every validator when the total returns to zero"},
 		"keeper.Keeper.ClaimDelegationRewards | SENTINEL(types.ErrUnknownAsset)":                 {"guarded", "C08.claimguard: the claim inside slashRedelegations is dominated by a successful GetAssetByDenom for the same denom"},
 		"keeper.Keeper.ClaimDelegationRewards | SENTINEL(stakingtypes.ErrNoDelegatorForAddress)": {"guarded", "C08.claimguard: the claim inside slashRedelegations is dominated by a successful GetDelegation for the same key"},
